@@ -16,12 +16,17 @@ for p in sorted(glob.glob(os.path.join(V, "seeded", "*", "meta.json"))):
         res = "MISSED at first run"
     if m.get("after_strengthening"):
         res += " → " + m["after_strengthening"]
+    if m.get("outside_property"):
+        res = "quiet, correctly: " + m["outside_property"]
+    if m.get("open_note"):
+        res += " — " + m["open_note"]
     rows.append(f"| {m['id']} | {m['property']} | {what} | {res} |")
 n_first = sum(1 for r in rows if "| caught (" in r)
 n_after = sum(1 for r in rows if "MISSED at first run →" in r)
-n_miss = len(rows) - n_first - n_after
-summary = (f"Totals: {len(rows)} seeded changes in seven waves; {n_first} caught by the quick tier as the checks stood when the change "
-           f"was written, {n_after} missed at first and caught after the named strengthening, {n_miss} still missed.\n\n")
+n_out = sum(1 for r in rows if "| quiet, correctly:" in r)
+n_miss = len(rows) - n_first - n_after - n_out
+summary = (f"Totals: {len(rows)} seeded changes in eight waves; {n_first} caught by the quick tier as the checks stood when the change "
+           f"was written, {n_after} missed at first and caught after the named strengthening, {n_miss} still missed, {n_out} outside the property as stated (check rightly quiet).\n\n")
 table = ("### Seeded changes (independent sub-agents, given only the property text) and which check catches them\n\n"
          "Each change compiles, passes the tlx tests named in its `meta.json`, and its demonstration fails with the\n"
          "change and passes without it (all re-confirmed in a scratch worktree). Result of `check.py <property> --tier quick`\n"
